@@ -83,3 +83,127 @@ Proof.
   intros r Pr Hn. rewrite (same_tree r n [] l Hn (chain_root h r Pr) C). reflexivity.
 Qed.
 End F.
+
+(** ---- exactly once: the unfolding below a node lists no node twice ---- *)
+Section Once.
+Variable h : heap.
+Hypothesis I : Inv h.
+
+(** a node shown below r has r on its ancestor-or-self chain, at the position r's own chain dictates *)
+Lemma abs_below_chain : forall fuel r x, In x (preorder (abs fuel h r)) -> forall lr, chain h r lr ->
+  exists pre lx, chain h x lx /\ x :: lx = pre ++ r :: lr.
+Proof.
+  induction fuel as [|fu IH]; intros r x Hx lr Cr.
+  - cbn [abs preorder flat_map] in Hx. destruct Hx as [<-|[]]. exists [], lr. split; [exact Cr|reflexivity].
+  - rewrite (pre_abs_S h) in Hx. destruct Hx as [<-|Hx]; [exists [], lr; split; [exact Cr|reflexivity]|].
+    apply in_flat_map in Hx. destruct Hx as [k [Hk Hx]].
+    assert (Pk : parent h k = Some r) by (apply (inv_link _ I); exact Hk).
+    destruct (IH k x Hx (r :: lr) (chain_step h k r lr Pk Cr)) as [pre [lx [Cx E]]].
+    exists (pre ++ [k]), lx. split; [exact Cx|]. rewrite E, <- app_assoc. reflexivity.
+Qed.
+
+Lemma nodup_app_intro {A} (a b : list A) : NoDup a -> NoDup b -> (forall x, In x a -> In x b -> False) -> NoDup (a ++ b).
+Proof.
+  induction a as [|x a IH]; intros Na Nb D; cbn [app]; [exact Nb|].
+  inversion Na as [|x' a' Nx Na']; subst. constructor.
+  - intros Hin. apply in_app_or in Hin. destruct Hin as [Hin|Hin]; [contradiction|]. apply (D x); [left; reflexivity|exact Hin].
+  - apply IH; [exact Na'|exact Nb|]. intros y Hy Hy'. apply (D y); [right; exact Hy|exact Hy'].
+Qed.
+
+Lemma nodup_flat_map {A B} (f : A -> list B) : forall l, NoDup l ->
+  (forall c, In c l -> NoDup (f c)) ->
+  (forall c1 c2 x, In c1 l -> In c2 l -> In x (f c1) -> In x (f c2) -> c1 = c2) ->
+  NoDup (flat_map f l).
+Proof.
+  induction l as [|c l IH]; intros ND Hf Hd; cbn [flat_map]; [constructor|].
+  inversion ND as [|c' l' Nc NDl]; subst.
+  apply nodup_app_intro.
+  - apply Hf. left. reflexivity.
+  - apply IH; [exact NDl|intros; apply Hf; right; assumption|].
+    intros c1 c2 x H1 H2. apply Hd; right; assumption.
+  - intros x Hx Hx'. apply in_flat_map in Hx'. destruct Hx' as [c2 [Hc2 Hx2]].
+    assert (c = c2) by (apply (Hd c c2 x); [left; reflexivity|right; exact Hc2|exact Hx|exact Hx2]).
+    subst c2. contradiction.
+Qed.
+
+Lemma abs_nodup : forall fuel r lr, chain h r lr -> NoDup (preorder (abs fuel h r)).
+Proof.
+  induction fuel as [|fu IH]; intros r lr Cr.
+  - cbn [abs preorder flat_map]. constructor; [intros []|constructor].
+  - rewrite (pre_abs_S h). constructor.
+    + (* r itself is not shown below one of its children *)
+      intros Hin. apply in_flat_map in Hin. destruct Hin as [k [Hk Hr]].
+      assert (Pk : parent h k = Some r) by (apply (inv_link _ I); exact Hk).
+      destruct (abs_below_chain fu k r Hr (r :: lr) (chain_step h k r lr Pk Cr)) as [pre [lx [Cx E]]].
+      rewrite (chain_fun h r lx Cx lr Cr) in E.
+      apply (f_equal (@length id)) in E. rewrite app_length in E. cbn [length] in E. lia.
+    + apply nodup_flat_map.
+      * apply (inv_nodup _ I).
+      * intros c Hc. apply (IH c (r :: lr)). apply chain_step; [apply (inv_link _ I); exact Hc|exact Cr].
+      * intros k1 k2 x H1 H2 Hx1 Hx2.
+        assert (C1 : chain h k1 (r :: lr)) by (apply chain_step; [apply (inv_link _ I); exact H1|exact Cr]).
+        assert (C2 : chain h k2 (r :: lr)) by (apply chain_step; [apply (inv_link _ I); exact H2|exact Cr]).
+        destruct (abs_below_chain fu k1 x Hx1 _ C1) as [p1 [l1 [Cx1 E1]]].
+        destruct (abs_below_chain fu k2 x Hx2 _ C2) as [p2 [l2 [Cx2 E2]]].
+        rewrite (chain_fun h x l2 Cx2 l1 Cx1) in E2. rewrite E1 in E2.
+        change (p1 ++ [k1] ++ r :: lr = p2 ++ [k2] ++ r :: lr) in E2.
+        rewrite !app_assoc in E2. apply app_inv_tail in E2. apply app_inj_tail in E2. tauto.
+Qed.
+
+Theorem tree_of_nodup r : NoDup (preorder (tree_of h r)).
+Proof. destruct (inv_acyclic _ I r) as [lr Cr]. unfold tree_of. eapply abs_nodup; eauto. Qed.
+End Once.
+
+(** ---- the roots' unfoldings partition the universe ---- *)
+Require Import Coq.Sorting.Permutation.
+Section Partition.
+Variable h : heap.
+Hypothesis I : Inv h.
+
+Definition roots : list id :=
+  filter (fun n => match parent h n with None => true | Some _ => false end) (seq 0 (length h)).
+
+Lemma roots_spec r : In r roots <-> r < length h /\ parent h r = None.
+Proof.
+  unfold roots. rewrite filter_In, in_seq. split.
+  - intros [[_ B] E]. split; [lia|]. destruct (parent h r); [discriminate|reflexivity].
+  - intros [B P]. rewrite P. split; [lia|reflexivity].
+Qed.
+
+Lemma root_of_bound : forall n l, chain h n l -> n < length h -> root_of n l < length h.
+Proof.
+  induction 1 as [n P|n p l P C IH]; intros B; cbn [root_of]; [exact B|].
+  apply IH. destruct (inv_bound_p _ I _ _ P). assumption.
+Qed.
+
+Lemma unfolding_bound r x : r < length h -> In x (preorder (tree_of h r)) -> x < length h.
+Proof.
+  intros B Hx. destruct (inv_acyclic _ I r) as [lr Cr]. unfold tree_of in Hx.
+  destruct (abs_below_chain h I _ r x Hx lr Cr) as [pre [lx [Cx E]]].
+  destruct pre as [|y pre]; cbn [app] in E.
+  - injection E as -> _. exact B.
+  - injection E as <- E. inversion Cx as [|x' p l P C']; subst; [destruct pre; discriminate|].
+    destruct (inv_bound_p _ I _ _ P). assumption.
+Qed.
+
+Theorem roots_partition :
+  Permutation (flat_map (fun r => preorder (tree_of h r)) roots) (seq 0 (length h)).
+Proof.
+  apply NoDup_Permutation.
+  - apply nodup_flat_map.
+    + unfold roots. apply NoDup_filter. apply seq_NoDup.
+    + intros r _. apply (tree_of_nodup h I).
+    + intros r1 r2 x H1 H2 Hx1 Hx2.
+      apply roots_spec in H1. apply roots_spec in H2.
+      destruct (inv_acyclic _ I x) as [lx Cx].
+      destruct (forest_partition h I x lx Cx) as [_ [_ U]].
+      rewrite (U r1), (U r2); tauto.
+  - apply seq_NoDup.
+  - intros x. rewrite in_flat_map, in_seq. split.
+    + intros [r [Hr Hx]]. apply roots_spec in Hr. split; [lia|]. cbn. eapply unfolding_bound; eauto. tauto.
+    + intros [_ B]. cbn in B. destruct (inv_acyclic _ I x) as [lx Cx].
+      exists (root_of x lx). split.
+      * apply roots_spec. split; [apply root_of_bound; assumption|apply (root_of_is_root h); exact Cx].
+      * apply (in_root_tree h I). exact Cx.
+Qed.
+End Partition.
